@@ -419,7 +419,7 @@ class XPathToken(Token[ta.XPathTokenType]):
 
         if self.parser.compatibility_mode:
             if issubclass(cls, str):
-                return self.string_value(item)
+                return self.compat_string_value(item)
             elif issubclass(cls, float) or issubclass(float, cls):
                 return self.number_value(item)
 
@@ -963,6 +963,18 @@ class XPathToken(Token[ta.XPathTokenType]):
                 raise self.error('FOTY0014', f"{obj.label!r} has no string value")
 
         return str(obj)
+
+    def compat_string_value(self, obj: Any) -> str:
+        """
+        The string value for the callers of the XPath 1.0 parser: a number has no
+        exponent notation, infinity is 'Infinity' and negative zero is '0'.
+        """
+        if isinstance(obj, float) and self.parser.version == '1.0' and not math.isnan(obj):
+            if math.isinf(obj):
+                return 'Infinity' if obj > 0 else '-Infinity'
+            value = format(Decimal(repr(obj)), 'f') if obj else '0'
+            return value.rstrip('0').rstrip('.') if '.' in value else value
+        return self.string_value(obj)
 
     def number_value(self, obj: Any) -> float:
         """
